@@ -512,6 +512,45 @@ func genCoordCase(r *Rng, big bool) *CCase {
 		c.Probes[a].Rt1.Head, c.Probes[a].Rt1.Proc = 10, 60
 		c.Probes[b].Rt1.Head, c.Probes[b].Rt1.Proc, c.Probes[b].Rt1.Idle = 0, r.PickI(18, 20, 22), 1
 	}
+	// an assigned target that alone exceeds a limit on a shard that is over the relief threshold, everything
+	// else settled: relief must give up on it, and no shard may be added because of it
+	if !moveBack && n >= 2 && r.Chance(6) {
+		c.Opt.DisAllev, c.Opt.IdleOn = false, r.Chance(30)
+		headCase := r.Chance(50)
+		if headCase {
+			c.Opt.MaxHead, c.Opt.MaxProc = 20, 1000
+		} else {
+			c.Opt.MaxHead, c.Opt.MaxProc = 0, 40
+		}
+		c.Opt.MaxShard, c.Opt.MinShard = int32(n)+2, 1
+		a := r.Intn(n)
+		c.Active, c.Explore = []uint64{}, []CSt{}
+		for i := range c.Probes {
+			p := &c.Probes[i]
+			p.Ready, p.StatusOk, p.Rt1.Ok, p.Rt1.Eq, p.PostOk = true, true, true, true, true
+			p.Status = []CSt{}
+			h := uint64(10 + i)
+			c.Active = append(c.Active, h)
+			p.Status = append(p.Status, CSt{Hash: h, Health: 1, Series: 3, Total: 4, Times: uint64(3 + r.Intn(3))})
+			p.Rt1 = CRt{Ok: true, Eq: true, Head: 3, Proc: 4}
+		}
+		bigSt := CSt{Hash: 1, Health: 1, Series: 5, Total: 60, Times: uint64(3 + r.Intn(4))}
+		if headCase {
+			bigSt.Series, bigSt.Total = 30, 31
+		}
+		c.Active = append(c.Active, 1)
+		pa := &c.Probes[a]
+		pa.Status = append(pa.Status, bigSt)
+		pa.Rt1.Head, pa.Rt1.Proc = 3+bigSt.Series, 4+bigSt.Total
+		// a few movable targets next to it, so that relief has something to do before or after it meets it
+		for k := 0; k < r.Intn(3); k++ {
+			h := uint64(20 + k)
+			c.Active = append(c.Active, h)
+			pa.Status = append(pa.Status, CSt{Hash: h, Health: 1, Series: 2, Total: 3, Times: 4})
+			pa.Rt1.Head += 2
+			pa.Rt1.Proc += 3
+		}
+	}
 	return c
 }
 
